@@ -186,6 +186,48 @@ Expressible(e) ==
     [] e.e = "roll" -> e.a.e \in {"var", "pro", "lit", "idx", "call", "roll"} /\ Expressible(e.a)
     [] OTHER -> TRUE
 
+(* statements and programs that some text denotes *)
+LitOK(v) == CASE v.t = "num" -> v.c = "fin" /\ v.n >= 0
+              [] v.t = "str" -> \A i \in 1..Len(v.s) : CharAt(v.s, i) \notin {"\"", NL}
+              [] OTHER -> TRUE
+RECURSIVE LitsOK(_)
+LitsOK(e) == CASE e.e = "lit" -> LitOK(e.v)
+               [] e.e = "idx" -> LitsOK(e.a) /\ LitsOK(e.k)
+               [] e.e = "call" -> e.args # <<>> /\ \A i \in 1..Len(e.args) : LitsOK(e.args[i])
+               [] e.e = "roll" -> LitsOK(e.a)
+               [] e.e = "un" -> LitsOK(e.x)
+               [] e.e = "bin" -> LitsOK(e.l) /\ \A i \in 1..Len(e.r) : LitsOK(e.r[i])
+               [] OTHER -> TRUE
+ExprOK(e) == Expressible(e) /\ LitsOK(e)
+PrimaryShaped(e) == e.e \in {"lit", "var", "pro", "idx", "call", "roll"}
+LhsOK(d) == d.e \in {"var", "pro"} \/ (d.e = "idx" /\ ExprOK(d))
+RECURSIVE LeftmostIsLiteral(_)
+LeftmostIsLiteral(e) == CASE e.e = "lit" -> TRUE [] e.e = "bin" -> LeftmostIsLiteral(e.l) [] e.e = "idx" -> LeftmostIsLiteral(e.a)
+                          [] e.e = "un" -> e.op = "neg" /\ e.x.e = "lit" /\ e.x.v.t = "num" [] OTHER -> FALSE
+TopListOK(es) == es # <<>> /\ ListOK(es) /\ \A i \in 1..Len(es) : ExprOK(es[i])
+RECURSIVE StmtOK(_)
+RECURSIVE BlockOK(_)
+BlockOK(ss) == \A i \in 1..Len(ss) : StmtOK(ss[i])
+StmtOK(s) ==
+  CASE s.s = "assign" -> LhsOK(s.dest) /\ TopListOK(s.vals)
+    [] s.s = "pnum" -> LhsOK(s.dest) /\ (s.e.e = "plit" \/ (ExprOK(s.e) /\ LeftmostIsLiteral(s.e)))
+    [] s.s = "pstr" -> LhsOK(s.dest) /\ \A i \in 1..Len(s.str) : CharAt(s.str, i) \notin {"\"", "(", NL}
+    [] s.s = "if" -> ExprOK(s.c) /\ BlockOK(s.th) /\ BlockOK(s.el)
+    [] s.s \in {"while", "until"} -> ExprOK(s.c) /\ BlockOK(s.body)
+    [] s.s \in {"inc", "dec"} -> s.dest.e \in {"var", "pro"} /\ s.n >= 1
+    [] s.s = "listen" -> s.dest.e = "none" \/ LhsOK(s.dest)
+    [] s.s \in {"say", "return"} -> ExprOK(s.e)
+    [] s.s = "mut" -> /\ PrimaryShaped(s.operand) /\ ExprOK(s.operand) /\ (s.dest.e = "none" => s.operand.e \in {"var", "pro"})
+                      /\ (s.dest.e = "none" \/ LhsOK(s.dest)) /\ (s.param.e = "none" \/ ExprOK(s.param))
+    [] s.s = "turn" -> ExprOK(s.e)
+    [] s.s \in {"break", "continue"} -> TRUE
+    [] s.s = "rock" -> PrimaryShaped(s.a) /\ ExprOK(s.a) /\ (s.vals = <<>> \/ (Len(s.vals) = 1 /\ s.vals[1].e = "plit") \/ TopListOK(s.vals))
+    [] s.s = "rollst" -> PrimaryShaped(s.a) /\ ExprOK(s.a) /\ (s.dest.e = "none" \/ LhsOK(s.dest))
+    [] s.s = "func" -> /\ s.ps # <<>> /\ BlockOK(s.body)
+                       /\ \A i \in 1..(Len(s.body) - 1) : ~(s.body[i].s = "if" /\ s.body[i].hasElse)     \* an if/else ends a function body
+    [] s.s = "callst" -> ExprOK([e |-> "call", f |-> s.f, args |-> s.args])
+ProgramOK(bs) == \A i \in 1..Len(bs) : bs[i] # <<>> /\ BlockOK(bs[i])
+
 -----------------------------------------------------------------------------
 (* poetic literals *)
 RECURSIVE RElems(_, _, _)
